@@ -1016,4 +1016,94 @@ example : fanArea (mpFan ⟨-1, -1⟩ [sqHole]) = 32 := by
   rw [oracle_fan_area _ _ (by decide +kernel)]
   norm_num [mpArea, polyArea, sumR, sqHole, shoelace2, det, rabs]
 
+/-! ### Non-vacuity, continued: an engine that answers about an arbitrary point -/
+
+/-- the engine `E1` for an arbitrary point `c` and a shape `sh` that contains it -/
+def Ec (c : Pt) (sh : Shape) : Engine :=
+  { overlay := fun s c' r f => if ruleCombine r (fillRegion f s c) (fillRegion f c' c) then [sh] else []
+    single := fun s f => if fillRegion f s c then [sh] else []
+    clip := fun l c' f invert _ =>
+      if onLines c l && (fillRegion f c' c != invert) then [[c]] else [] }
+def farc (c : Pt) (p : Pt) (_ : List Path) : Prop := p = c
+
+private theorem pt_onLines_c (c : Pt) : onLines c [[c]] = true := by
+  simp [onLines]
+
+theorem Ec_spec (c : Pt) (sh : Shape) (hin : shapesInside c [sh] = true) (hok : shapeOk sh = true) :
+    EngineSpec (Ec c sh) (farc c) where
+  overlay_region := by
+    intro s c' r f p _ hp
+    rw [show p = c from hp]
+    simp only [Ec]
+    cases ruleCombine r (fillRegion f s c) (fillRegion f c' c)
+    · rfl
+    · exact hin
+  overlay_shape := by
+    intro s c' r f _ sh' hsh
+    simp only [Ec] at hsh
+    split at hsh
+    · rw [List.mem_singleton.1 hsh]; exact hok
+    · simp at hsh
+  single_region := by
+    intro s f p _ hp
+    rw [show p = c from hp]
+    simp only [Ec]
+    cases fillRegion f s c
+    · rfl
+    · exact hin
+  single_shape := by
+    intro s f _ sh' hsh
+    simp only [Ec] at hsh
+    split at hsh
+    · rw [List.mem_singleton.1 hsh]; exact hok
+    · simp at hsh
+  clip_region := by
+    intro l c' f invert p _ hp hon
+    rw [show p = c from hp] at hon ⊢
+    simp only [Ec, hon, Bool.true_and]
+    cases (fillRegion f c' c != invert)
+    · rfl
+    · exact pt_onLines_c c
+  clip_subset := by
+    intro l c' f invert incl p hp h
+    rw [show p = c from hp] at h ⊢
+    simp only [Ec] at h
+    cases hl : onLines c l
+    · rw [hl] at h; simp [onLines] at h
+    · rfl
+
+/-- the witness for inconsistently wound input is not vacuous: an engine meeting the specification with
+(11, 1), resp. (3, 3), far; `unary_union` of the counter-clockwise and the clockwise square misses the
+point although a member contains it. -/
+example : mpInside ⟨11, 1⟩ (unaryUnion (Ec ⟨11, 1⟩ [[⟨10, 0⟩, ⟨10, 4⟩, ⟨14, 4⟩, ⟨14, 0⟩]])
+      ([sq, sqFarCw].map (fun m => [m]))) = false ∧
+    [sq, sqFarCw].any (polyInside ⟨11, 1⟩) = true :=
+  (unaryUnion_inconsistent_witness
+    (Ec_spec ⟨11, 1⟩ [[⟨10, 0⟩, ⟨10, 4⟩, ⟨14, 4⟩, ⟨14, 0⟩]] (by decide +kernel) (by decide +kernel))).1 rfl
+example : mpInside ⟨3, 3⟩ (unaryUnion (Ec ⟨3, 3⟩ sqShape) ([sq, sqOverCw].map (fun m => [m]))) = false ∧
+    [sq, sqOverCw].any (polyInside ⟨3, 3⟩) = true :=
+  (unaryUnion_inconsistent_witness (Ec_spec ⟨3, 3⟩ sqShape (by decide +kernel) (by decide +kernel))).2 rfl
+
+example : mpInside ⟨1, 1⟩ (booleanOp E1 [sq, sqFar] [sqHole] .union) = true := by
+  rw [booleanOp_pointwise_multi_partial E1_spec [sq, sqFar] [sqHole] .union ⟨1, 1⟩ (by decide +kernel)
+    (by decide +kernel) (by decide +kernel) (by decide +kernel) (by decide +kernel) (by decide +kernel) rfl]
+  decide +kernel
+
+example : WindingValid [sqHole, sq] 1 ⟨1, 2⟩ :=
+  windingValid_of_valid [sqHole, sq] 1 ⟨1, 2⟩ (by simp) (by decide +kernel) consistentlyWound_ex
+    (by decide +kernel)
+
+example : ∀ r ∈ sqHoleRep.rings, ∃ k : Nat, r = coreRing r ++ List.replicate k (r.headD ⟨0, 0⟩) ∧
+    coreRing r = ringToShapePath r ++ [r.headD ⟨0, 0⟩] :=
+  glue_roundTrip_valid sqHoleRep (by decide +kernel)
+
+example : polyInside ⟨1, 1⟩ (polygonFromShape (sqHoleRep.rings.map ringToShapePath)) = true := by
+  rw [glue_roundTrip_region ⟨1, 1⟩ sqHoleRep (by decide +kernel)]
+  decide +kernel
+
+example : sampleMeasure [(⟨1, 1⟩, 3), (⟨3, 3⟩, 1 / 2)] (opRegion .xor (fun p => polyInside p sq) (fun p => polyInside p sqHole)) =
+    sampleMeasure [(⟨1, 1⟩, 3), (⟨3, 3⟩, 1 / 2)] (opRegion .union (fun p => polyInside p sq) (fun p => polyInside p sqHole)) -
+    sampleMeasure [(⟨1, 1⟩, 3), (⟨3, 3⟩, 1 / 2)] (opRegion .intersection (fun p => polyInside p sq) (fun p => polyInside p sqHole)) :=
+  (area_identities (sampleMeasure_additive (fun _ => True) _ (fun _ _ => trivial)) _ _).2.2
+
 end Geo.Proofs.C04
